@@ -201,20 +201,14 @@ func Intersection(limit int, sets ...*Set) (*Set, bool) {
 	}
 }
 
-// Union takes a slice of sets and generates a union
+// Union takes a slice of sets and generates a union.
+// The result is always a new set: the operands are not modified and share nothing with it.
 func Union(sets ...*Set) *Set {
-	switch len(sets) {
-	case 1:
-		return sets[0]
-	case 2:
-		union := sets[0]
-		union.Add(sets[1].GetAll())
-		return union
-	default:
-		left := Union(sets[0 : len(sets)/2]...)
-		right := Union(sets[len(sets)/2:]...)
-		return Union(left, right)
+	union := NewSet([]string{})
+	for _, s := range sets {
+		union.Add(s.GetAll())
 	}
+	return union
 }
 
 // The set is persisted (snapshots, AOF preamble) as the list of its members.
